@@ -57,6 +57,8 @@ MISS_STEMS = [
 ]
 AUDIO_NAMES = ["song.ogg", "song.MP3", "a.wav", "b.oga", "e.OGG", "c.flac", "d.ogg.txt", "ogg", "x.mp3x", "x.wave", "f.Wav"]
 OTHER_NAMES = ["notes.txt", "README", "song.lrc", "video.avi"]
+# hidden files: the whole name is the stem when the only dot is the leading one
+HIDDEN_NAMES = [".albumart", ".cdtitle", ".Song-BG", ".banner", ".bn", ".jk_x", ".x-cd", ".a title", ".hidden", ".Jacket.png", ".bg.JPG", "..bn"]
 SUBDIRS = ["sub", "Extras"]
 KINDS = [
     ("BANNER", "banner"), ("BACKGROUND", "background"), ("CDTITLE", "cdtitle"), ("JACKET", "jacket"),
@@ -70,8 +72,10 @@ def need(cond, msg):
 
 
 def stem_of(name):
-    i = name.rfind(".")
-    return (name if i <= 0 else name[:i]).lower()
+    """the name without its extension; leading dots (hidden files) do not start an extension"""
+    rest = name.lstrip(".")
+    i = rest.rfind(".")
+    return (name if i <= 0 else name[: len(name) - len(rest) + i]).lower()
 
 
 def matches(kind, name):
@@ -204,8 +208,15 @@ def check_assets(case, E):
     E.mkdir(d)
     for name in case["files"]:
         E.write(E.join(d, name), b"x")
+    links = case.get("links") or []
     for sub, names in case["subdirs"]:
-        E.mkdir(E.join(d, sub))
+        if sub in links and E.flavour == "native":
+            # the sub-directory is a symbolic link to a directory kept beside the song folder (shared artwork)
+            real = E.join(E.root, "_shared_" + sub)
+            E.mkdir(real)
+            os.symlink(real, E.join(d, sub), target_is_directory=True)
+        else:
+            E.mkdir(E.join(d, sub))
         for name in names:
             E.write(E.join(d, sub, name), b"x")
     props = [(k, v) for k, v in case["props"] if k not in ("DISC", "DISCIMAGE")]
@@ -254,6 +265,8 @@ def check_assets(case, E):
                 labels.append("specified-several-spellings")
             if "/" in v:
                 labels.append("specified-in-subdir")
+                if E.flavour == "native" and v.split("/")[0].lower() in [x.lower() for x in (case.get("links") or [])]:
+                    labels.append("specified-in-symlinked-subdir")
         else:
             M = {E.norm(E.join(d, e)) for e in listing if matches(key, e)}
             if M:
@@ -374,7 +387,7 @@ image_name = st.builds(
     st.sampled_from(MISS_STEMS),
     st.sampled_from(IMG_EXT_POOL),
 )
-entry_name = st.one_of(image_name, image_name, image_name, st.sampled_from(AUDIO_NAMES), st.sampled_from(AUDIO_NAMES + OTHER_NAMES))
+entry_name = st.one_of(image_name, image_name, image_name, st.sampled_from(AUDIO_NAMES), st.sampled_from(AUDIO_NAMES + OTHER_NAMES), st.sampled_from(HIDDEN_NAMES))
 
 
 KIND_HITS = {
@@ -454,6 +467,7 @@ def s_assets(draw):
         "fs": ["native", "mem"][o & 1],
         "files": files,
         "subdirs": subdirs,
+        "links": [sub for sub, _ in subdirs if draw(st.integers(0, 3)) == 0],
         "props": props,
         "simfile": ["sm", "ssc"][(o >> 1) & 1],
         "route": ["given", "given", "load", "dir"][(o >> 2) & 3],
